@@ -149,6 +149,13 @@ Definition write_snapshot (stem : name) (now : Z) (s : shard) : shard :=
   if cache_is_empty (sh_cache s) then s
   else mk_shard (sh_files s ++ [flush_file stem now (sh_cache s)]) empty_cache.
 
+(* Engine.flushCache (CreateSnapshot): a snapshot the cache retained after a failed write is
+   written out on its own first, under the next file name; the live cache follows in a second
+   WriteSnapshot.  This is the first pass. *)
+Definition flush_retained (stem : name) (now : Z) (s : shard) : shard :=
+  mk_shard (sh_files s ++ [flush_file stem now {| c_snap := c_snap (sh_cache s); c_hot := [] |}])
+           {| c_snap := []; c_hot := c_hot (sh_cache s) |}.
+
 (* what the snapshotter does during the (up to four) attempts of CreateSnapshot *)
 Inductive snap_oracle := SnapIdle | SnapBusy | SnapFail.
 
